@@ -129,6 +129,20 @@ EXTRA = {
  "C16": " Also: totality on the domain: no failure exit of EapAkaPrimePRF is reachable for IK', CK' of 1..64 octets and an identity of 0..255 octets (the test of the derived stream's length is decided by the round count of the shape rule).",
  "C13": " Also: no error exit on the decode path depends on a payload type code (forward dependence from header octet 16, octet 0 of the generic header, the walker's first-type argument and the NextPayload fields). The walker's test of the remaining length lets a bare 4-octet generic header pass (an unsupported payload with an empty body, also as the last one). Whether a chain is accepted does not depend on what an earlier decode left in the message object.",
 }
+# rules added in round 14 (declarations the anchored functions depend on)
+R14 = {
+ "C01": " The keyed objects are the library's own (descriptor Init returns the result of hmac.New, NewCrypto stores the result of aes.NewCipher); every object the payload dispatch allocates is new and empty; payload type codes equal RFC 7296 3.2.",
+ "C02": " The descriptor a received integrity transform resolves to is the registered one with the RFC's output length (C11's registry rules for security/integ).",
+ "C03": " Every object the payload / EAP dispatch allocates for Unmarshal is new and empty (no defaults, no shared template); payload and EAP method type codes equal the RFC numbers; a decoder that stores a piece of its input under a guard returns success on the other side only where the piece is empty; the AKA' encoder emits every attribute of the map.",
+ "C04": " The outcome is a function of the octets: every object a dispatch arm allocates for Unmarshal is new and empty, directly or as every return of a module constructor.",
+ "C05": " Assigned numbers: every exported protocol-number constant of the message and eap packages (about 190: payload, exchange, transform, notify, ID, certificate, configuration, traffic-selector types, flag bits, EAP codes / types / AKA' subtypes and attribute types, EAP-5G and 3GPP numbers) equals a frozen table transcribed from RFC 7296, the IANA registries, RFC 4187/5448 and TS 24.502; each dispatched payload / EAP method type carries its RFC code; dispatch allocates new empty objects.",
+ "C06": " The algorithms applied are the negotiated ones: C11's registry rules (closure, no foreign mapping, decode shape, reference lengths) for security/integ and security/encr.",
+ "C10": " 'Every key of the negotiated size': C11's registry rules for security/encr (each registered name has its own descriptor with its own key length; a received key-length attribute resolves to exactly that name); the block cipher NewCrypto stores is the result of aes.NewCipher itself.",
+ "C12": " The type a payload is re-announced under is the type it was dispatched from (dispatch bijection with RFC codes, new empty objects); no piece of the input is skipped silently.",
+ "C13": " Each supported payload type carries the code RFC 7296 3.2 assigns (so the set of 'unsupported' codes is the RFC's complement); dispatch allocates new empty objects.",
+ "C14": " EAP method type codes, EAP codes, AKA' subtypes and attribute type numbers equal their registry values; the EAP method dispatch is a bijection onto new empty objects; Identity / Notification / Nak decoders skip storing the type-data only when there is none.",
+ "C17": " The objects an SA keeps are the library's own: every descriptor Init returns the result of crypto/hmac.New (or nil) and the block cipher of the object NewCrypto builds is the result of crypto/aes.NewCipher - no module type stands in for them (a wrapper could cache a Sum buffer or answer the library's NewCBCEncrypter / SetIV probes and so carry state between messages).",
+}
 THOROUGH = " Thorough tier: additionally replays every seeded faulty variant of this property (seeded/<id>-*) on a scratch copy of the current tree and requires it to be reported (exit 2 'SENSITIVITY-LOST' otherwise)"
 BCE = "; and cross-checks the prover's site enumeration against the compiler's unproven bounds checks (-d=ssa/check_bce)"
 
@@ -148,7 +162,7 @@ def main():
             "evidence_file": f"evidence/{pid}.json",
             "replay_cmd_template": "./bin/ikelint -explain {path}",
             "engine": "ikelint",
-            "level_claimed": {"category": c["cat"], "text": c["text"] + EXTRA.get(pid, ""), "design_ref": c["ref"] + ", 8"},
+            "level_claimed": {"category": c["cat"], "text": c["text"] + EXTRA.get(pid, "") + R14.get(pid, ""), "design_ref": c["ref"] + ", 8"},
             "level_note": c["note"] + THOROUGH + (BCE if pid in ("C02", "C04", "C10") else "") + ".",
             "technique": c["tech"],
         })
